@@ -370,7 +370,8 @@ def model_gradient_table(repo: Repo, model, fn_src):
     with every local replaced by what it was bound to on that path and the conversion calls in all-keyword form} or (None, reason)"""
     from ..pathtable import walk
     from ..pattern import norm as pn
-    fn = canon_fn(repo, model, fn_src, 1)
+    # private helpers the method may be split into (conversion of wrt, conversion of the result) are inlined; the conversion primitives stay calls
+    fn = canon_keep(repo, model, fn_src, {"_2par", "_2fun", "_gradient_func", "_check_gradient_can_be_computed", "_apply_func", "_forward_func", "_parse_args_add_to_kwargs"})
     kc = KwCanon(repo, model, ["_2par", "_2fun", "_gradient_func"])
     atom = pn("hasattr(self.domain_geometry,'gradient')")
     out = {}
